@@ -50,7 +50,7 @@ var c18KeyNames = []string{"Security.PAATokenSigningKey", "Security.PAATokenEncr
 func refStartable(c c18Cfg) (bool, string) {
 	has := func(a string) bool {
 		for _, x := range c.Auth {
-			if x == a {
+			if x == a || (a == "local" && x == "basic") {
 				return true
 			}
 		}
@@ -236,7 +236,7 @@ func c18Load(yaml string, env []string) (conf *config.Configuration, refused boo
 }
 
 func c18(env *Env, rep *Report) {
-	rep.Rule = "(L1) the real config.Load in a child process for the full product 16 authentication subsets x TLS {disable, enabled} x host selection {roundrobin, signed, unsigned, any} x query-token key {absent, present} x keytab {absent, present} x cookie auth {on, off} x source {file, RDPGW_ environment, both with the file saying something else}: refusal exactly for the reference's refusal list (except the no-hosts rule, which main() enforces), and the effective settings equal the given ones; plus every combination of 5 key settings x {absent, 1, 31, 32 characters} (quick: each key alone and all pairs; thorough: the full 4^5 block) loaded twice: a 32-character key is kept, an absent or shorter one is replaced by a 32-character value that differs between the two loads; the user-token signing key likewise. " +
+	rep.Rule = "(L1) the real config.Load in a child process for the full product 16 authentication subsets (those with local also spelled with its alias basic) x TLS {disable, enabled} x host selection {roundrobin, signed, unsigned, any} x query-token key {absent, present} x keytab {absent, present} x cookie auth {on, off} x source {file, RDPGW_ environment, both with the file saying something else}: refusal exactly for the reference's refusal list (except the no-hosts rule, which main() enforces), and the effective settings equal the given ones; plus every combination of 5 key settings x {absent, 1, 31, 32 characters} (quick: each key alone and all pairs; thorough: the full 4^5 block) loaded twice: a 32-character key is kept, an absent or shorter one is replaced by a 32-character value that differs between the two loads; the user-token signing key likewise. " +
 		"(L2) the real rdpgw binary started for authentication subsets x TLS x hosts {0,1} x {signed without key, signed with key, roundrobin} x cookie auth (quick: 96 starts, thorough: 384 + keytab dimension): refused => non-zero exit before listening, startable => listening socket. (L3) two real instances started with absent keys: a session cookie and an access token obtained from instance 1 through a real OpenID login are not accepted by instance 2 (and are accepted by instance 1). distinct_nontrivial = distinct configurations."
 	rep.Assumptions = append(rep.Assumptions, "documented capitalisation of configuration keys; environment names derived by the documented RDPGW_SECTION__KEY_NAME rule", "keys of 33 and more characters are outside the property",
 		"startup is observed within 20 s (exit status or accepting socket); ACME/auto TLS without certificate files is not started")
@@ -258,36 +258,49 @@ func c18(env *Env, rep *Report) {
 		if len(al) == 0 {
 			continue
 		}
-		for _, tlsm := range []string{"disable", "enable"} {
-			for _, sel := range []string{"roundrobin", "signed", "unsigned", "any"} {
-				for _, qk := range []bool{false, true} {
-					for _, kt := range []bool{false, true} {
-						for _, ta := range []bool{true, false} {
-							for _, src := range []string{"file", "env", "both"} {
-								n++
-								if !env.mine(n) {
-									continue
-								}
-								distinct++
-								c := c18Cfg{Auth: al, TLS: tlsm, Selection: sel, QueryKey: qk, Keytab: kt, TokenAuth: ta, Hosts: 1}
-								yaml, ev := c18Render(c18Settings(c, 8443, idp.Issuer), src)
-								conf, refused, log := c18Load(yaml, ev)
-								rep.add("executions", 1)
-								want, why := refStartable(c)
-								what := fmt.Sprintf("auth=%v tls=%s selection=%s querykey=%v keytab=%v tokenauth=%v source=%s", al, tlsm, sel, qk, kt, ta, src)
-								rep.outcome(fmt.Sprintf("L1 startable=%v refused=%v", want, refused))
-								switch {
-								case !want && !refused:
-									rep.violate("C18/unsafe-configuration-accepted-by-config-load/"+strings.ReplaceAll(why, " ", "-")+"/"+src, what+": "+why, map[string]any{"noreplay": true})
-								case want && refused:
-									rep.violate("C18/safe-configuration-refused/"+src, what+": "+tail(log, 200), map[string]any{"noreplay": true})
-								case want && conf != nil:
-									if strings.Join(conf.Server.Authentication, " ") != strings.Join(al, " ") || conf.Server.HostSelection != sel || conf.Caps.TokenAuth != ta || (conf.Server.Tls == "disable") != (tlsm == "disable") {
-										rep.violate("C18/effective-settings-differ-from-given/"+src, fmt.Sprintf("%s: effective auth=%v selection=%s tokenauth=%v tls=%s", what, conf.Server.Authentication, conf.Server.HostSelection, conf.Caps.TokenAuth, conf.Server.Tls), map[string]any{"noreplay": true})
+		spellings := [][]string{al}
+		if mask&4 != 0 {
+			// "basic" is a documented alias of "local"
+			alt := append([]string{}, al...)
+			for i := range alt {
+				if alt[i] == "local" {
+					alt[i] = "basic"
+				}
+			}
+			spellings = append(spellings, alt)
+		}
+		for _, al := range spellings {
+			for _, tlsm := range []string{"disable", "enable"} {
+				for _, sel := range []string{"roundrobin", "signed", "unsigned", "any"} {
+					for _, qk := range []bool{false, true} {
+						for _, kt := range []bool{false, true} {
+							for _, ta := range []bool{true, false} {
+								for _, src := range []string{"file", "env", "both"} {
+									n++
+									if !env.mine(n) {
+										continue
 									}
-								}
-								if distinct%400 == 1 {
-									rep.sample(map[string]any{"level": "L1 config.Load", "config": what, "reference_startable": want, "refused": refused})
+									distinct++
+									c := c18Cfg{Auth: al, TLS: tlsm, Selection: sel, QueryKey: qk, Keytab: kt, TokenAuth: ta, Hosts: 1}
+									yaml, ev := c18Render(c18Settings(c, 8443, idp.Issuer), src)
+									conf, refused, log := c18Load(yaml, ev)
+									rep.add("executions", 1)
+									want, why := refStartable(c)
+									what := fmt.Sprintf("auth=%v tls=%s selection=%s querykey=%v keytab=%v tokenauth=%v source=%s", al, tlsm, sel, qk, kt, ta, src)
+									rep.outcome(fmt.Sprintf("L1 startable=%v refused=%v", want, refused))
+									switch {
+									case !want && !refused:
+										rep.violate("C18/unsafe-configuration-accepted-by-config-load/"+strings.ReplaceAll(why, " ", "-")+"/"+src, what+": "+why, map[string]any{"noreplay": true})
+									case want && refused:
+										rep.violate("C18/safe-configuration-refused/"+src, what+": "+tail(log, 200), map[string]any{"noreplay": true})
+									case want && conf != nil:
+										if strings.Join(conf.Server.Authentication, " ") != strings.Join(al, " ") || conf.Server.HostSelection != sel || conf.Caps.TokenAuth != ta || (conf.Server.Tls == "disable") != (tlsm == "disable") {
+											rep.violate("C18/effective-settings-differ-from-given/"+src, fmt.Sprintf("%s: effective auth=%v selection=%s tokenauth=%v tls=%s", what, conf.Server.Authentication, conf.Server.HostSelection, conf.Caps.TokenAuth, conf.Server.Tls), map[string]any{"noreplay": true})
+										}
+									}
+									if distinct%400 == 1 {
+										rep.sample(map[string]any{"level": "L1 config.Load", "config": what, "reference_startable": want, "refused": refused})
+									}
 								}
 							}
 						}
